@@ -102,10 +102,7 @@ struct SIMDVector<int64_t,simd_abi::avx512> {
         mask_to_array(mask,maska);
         for (FASTOR_INDEX i=0; i<Size; ++i) {
             if (maska[i] == -1) {
-                a[Size - i - 1] = ((const scalar_value_type*)&value)[Size - i - 1];
-            }
-            else {
-                a[Size - i - 1] = 0;
+                a[Size - i - 1] = ((const internal::int64_alias_t*)&value)[Size - i - 1];
             }
         }
         unused(Aligned);
@@ -481,10 +478,7 @@ struct SIMDVector<int64_t,simd_abi::avx> {
         mask_to_array(mask,maska);
         for (FASTOR_INDEX i=0; i<Size; ++i) {
             if (maska[i] == -1) {
-                a[Size - i - 1] = ((const scalar_value_type*)&value)[Size - i - 1];
-            }
-            else {
-                a[Size - i - 1] = 0;
+                a[Size - i - 1] = ((const internal::int64_alias_t*)&value)[Size - i - 1];
             }
         }
         unused(Aligned);
@@ -795,10 +789,7 @@ struct SIMDVector<int64_t,simd_abi::sse> {
         mask_to_array(mask,maska);
         for (FASTOR_INDEX i=0; i<Size; ++i) {
             if (maska[i] == -1) {
-                a[Size - i - 1] = ((const scalar_value_type*)&value)[Size - i - 1];
-            }
-            else {
-                a[Size - i - 1] = 0;
+                a[Size - i - 1] = ((const internal::int64_alias_t*)&value)[Size - i - 1];
             }
         }
         unused(Aligned);
